@@ -45,6 +45,9 @@ pub struct GenCfg {
     pub long_bodies: usize,
     /// up to this many extra trivial globals (every global is a chunk-level Lua local)
     pub many_globals: usize,
+    /// top-level profile: pure global functions, initialisers that call functions, at most one initialiser
+    /// with effects (prints / assigns mutable globals)
+    pub toplevel_calls: bool,
     /// boundary literals
     pub extreme_literals: bool,
 }
@@ -81,6 +84,7 @@ impl GenCfg {
             scenario_weight: 2,
             long_bodies: 0,
             many_globals: 0,
+            toplevel_calls: false,
             extreme_literals: true,
         }
     }
@@ -129,6 +133,7 @@ pub struct Gen<'t, 'a, 'b> {
     /// generating the base case of a recursive function: no call of an enclosing recursive function
     in_base_case: bool,
     splice_next: bool,
+    effect_init_used: bool,
 }
 
 const INT_POOL: &[i64] = &[0, 1, 2, 3, 5, 7, 10, -1, -2, 42, 100, 255, 1000, -17];
@@ -158,7 +163,7 @@ const STR_POOL: &[&str] = &["", "a", "b", "abc", "hello", "x y", "Z", "0", "√©t√
 
 impl<'t, 'a, 'b> Gen<'t, 'a, 'b> {
     pub fn new(t: &'t mut Tape<'a, 'b>, cfg: GenCfg) -> Self {
-        Gen { t, p: Program::default(), cfg, scope: Vec::new(), uid: 0, rec_stack: Vec::new(), fn_depth: 0, budget: 0, fn_exprs: 0, in_base_case: false, splice_next: false }
+        Gen { t, p: Program::default(), cfg, scope: Vec::new(), uid: 0, rec_stack: Vec::new(), fn_depth: 0, budget: 0, fn_exprs: 0, in_base_case: false, splice_next: false, effect_init_used: false }
     }
 
     fn fresh(&mut self, prefix: &str, ty: Ty, kind: VarKind, mutable: bool) -> VarId {
@@ -1312,7 +1317,7 @@ impl<'t, 'a, 'b> Gen<'t, 'a, 'b> {
             if ctx.block_depth > 0 && !pure { 6 } else { 0 },          // 4 loop
             if ctx.block_depth > 0 && (self.cfg.enums || self.cfg.lists) { 5 } else { 0 }, // 5 case statement
             if !pure { 7 } else { 0 },                                 // 6 call statement
-            3,                                                         // 7 assert
+            if pure && self.cfg.toplevel_calls { 0 } else { 3 },       // 7 assert (a failing assert is an effect)
             if ctx.block_depth > 0 { 2 } else { 0 },                   // 8 do-block
             if !pure && self.cfg.blobs { 6 } else { 0 },               // 9 field assignment
             if !pure && self.cfg.lists { 5 } else { 0 },               // 10 list push / for_each
@@ -1518,7 +1523,7 @@ impl<'t, 'a, 'b> Gen<'t, 'a, 'b> {
                 let v = self.expr_c(&r, 2, ctx);
                 b.stmts.push(Stmt::Ret(Some(v)));
             }
-        } else if self.t.chance(1, 40) {
+        } else if !(ctx.pure && self.cfg.toplevel_calls) && self.t.chance(1, 40) {
             self.uid += 1;
             b.stmts.push(Stmt::Unreachable(self.uid));
         }
@@ -1638,14 +1643,22 @@ impl<'t, 'a, 'b> Gen<'t, 'a, 'b> {
             };
             pts.push(t);
         }
-        let ret = if self.t.chance(1, 5) { Ty::Void } else { self.value_ty(2) };
-        let fty = Ty::Fn(pts.clone(), Box::new(ret.clone()), false);
+        let gpure = self.cfg.toplevel_calls && self.t.chance(1, 3);
+        let ret = if !gpure && self.t.chance(1, 5) { Ty::Void } else { self.value_ty(2) };
+        if gpure {
+            for t in pts.iter_mut() {
+                if let Ty::Fn(a, r, _) = t {
+                    *t = Ty::Fn(a.clone(), r.clone(), true);
+                }
+            }
+        }
+        let fty = Ty::Fn(pts.clone(), Box::new(ret.clone()), gpure);
         let v = self.fresh("f", fty.clone(), VarKind::Global, false);
         let sv = SVar { id: v, ty: fty.clone(), mutable: false, assignable: false, rec, global: true };
         if rec {
             self.scope.push(sv.clone());
         }
-        let def = self.lambda(pts, ret, false, if rec { Some(v) } else { None }, None);
+        let def = self.lambda(pts, ret, gpure, if rec { Some(v) } else { None }, None);
         if !rec {
             self.scope.push(sv);
         }
@@ -1667,7 +1680,37 @@ impl<'t, 'a, 'b> Gen<'t, 'a, 'b> {
         self.cfg.methods = false;
         self.cfg.closures = false;
         self.cfg.higher_order = false;
-        let value = self.expr_c(&ty, 2, &mut ctx);
+        // top-level profile: the initialiser is a call of an earlier global function (arguments effect-free)
+        let mut call_value: Option<(Ty, Expr)> = None;
+        if self.cfg.toplevel_calls && self.t.chance(1, 2) {
+            let fns: Vec<SVar> = saved
+                .iter()
+                .filter(|v| v.global)
+                .filter(|v| match &v.ty {
+                    Ty::Fn(ps, r, pure) => **r != Ty::Void && !ps.iter().any(|p| p.is_fn()) && (*pure || !self.effect_init_used),
+                    _ => false,
+                })
+                .cloned()
+                .collect();
+            if !fns.is_empty() {
+                let f = self.t.pick(&fns).clone();
+                if let Ty::Fn(_, r, pure) = &f.ty {
+                    if !*pure {
+                        self.effect_init_used = true;
+                    }
+                    let rt = (**r).clone();
+                    let c = self.call_to(&f, 2, &mut ctx);
+                    call_value = Some((rt, c));
+                }
+            }
+        }
+        let (ty, value) = match call_value {
+            Some((t, c)) => (t, c),
+            None => {
+                let v = self.expr_c(&ty, 2, &mut ctx);
+                (ty, v)
+            }
+        };
         self.cfg.methods = cfg_saved.0;
         self.cfg.closures = cfg_saved.1;
         self.cfg.higher_order = cfg_saved.2;
